@@ -839,16 +839,24 @@ Definition eval_filter (f : filt) (spans : list (N * list N)) :=
    map (fun cx => map (fun m => enc_b (f_acc f m cx)) pool) ctxs,
    map (fun m => enc_b (f_f12 f m)) pool).
 
-(** one stack case: (hint, interests, per context (enabled, deliveries), all leaves, classes) *)
-Definition eval_stack (c : coll) (spans : list (N * list N)) :=
+(** one stack case: (hint, interests, per context (enabled, deliveries), all leaves, classes).
+    [has] is the Registry's [has_per_subscriber_filters()] = "some Filtered registered a FilterId when the stack was
+    built"; it can be stale (true although no Filtered is left) after a [Handle::reload] of a layer *)
+Definition eval_stack_has (has : bool) (c : coll) (spans : list (N * list N)) :=
   let ctxs := map (fun sp => real_ctx (c_envs c) (c_asked c) (N.of_nat (List.length sp)) (span_insts sp))
                   (prefixes spans) in
   (enc_h (c_hint c),
-   map (fun m => enc_i (c_interest c m)) pool,
+   map (fun m => enc_i (fst (c_reg has c m None))) pool,
    map (fun cx => (map (fun m => enc_b (c_en c m cx)) pool, map (fun m => c_recv c m cx) pool)) ctxs,
    c_all c,
    (map (fun m => enc_b (c_f12 c m)) pool,
     map (fun m => enc_b (c_f82 c m)) pool,
     [enc_b (c_f83 c); enc_b (c_reloaded_filtered c);
-     enc_b (forallb (fun m => match c_pend_after c m with None => true | Some _ => false end) pool);
+     enc_b (forallb (fun m => match snd (c_reg has c m None) with None => true | Some _ => false end) pool);
      c_nfilt c])).
+Definition eval_stack (c : coll) (spans : list (N * list N)) := eval_stack_has (c_has c) c spans.
+(** a stack observed while a [reload::Subscriber] layer holds one value ([c0]), and again after [Handle::reload]
+    installed another ([c1]): the flags cached by [Layered::new] do not change ([psf (LReload _) = false] whatever
+    it holds), the none marker is probed afresh, the Registry keeps the filter ids registered for [c0] *)
+Definition eval_swap (c0 c1 : coll) (spans : list (N * list N)) :=
+  [eval_stack c0 spans; eval_stack_has (c_has c0 || c_has c1) c1 spans].
